@@ -164,6 +164,7 @@ type Stats struct {
 	MidOpSwitch    int // probe: a task was preempted between two lock acquisitions of one public call
 	AtomicOps      int // scheduling points taken before sync/atomic operations of the code under test
 	Goscheds       int // runtime.Gosched calls of the code under test
+	HoldPoints     int // scheduling points taken while holding a freshly acquired lock (only when the code under test uses TryLock)
 	MapRanges      int // draws made for the order of map iterations of the code under test
 	LibRandStreams int // 1 if the code under test drew from math/rand's package-level functions
 	Sig            uint64
@@ -510,6 +511,31 @@ func NumCPU() int {
 		return 4
 	}
 	return []int{1, 2, 4, 16}[SplitMix64(s.cfg.AuxSeed^0x5be0cd19137e2179)%4]
+}
+
+// holdPoints: scheduling points right AFTER a lock has been acquired. For blocking locks they
+// add nothing (whoever wants the lock is disabled while it is held), which is why they are off by
+// default; but a non-blocking TryLock/TryRLock can observe "somebody is inside a critical section",
+// a state that scheduling at acquisitions alone never shows an observer. simgen switches them on
+// (a generated init in the instrumented copy) when the code under test uses TryLock or TryRLock.
+var holdPoints bool
+
+// EnableHoldPoints is called from the generated file of an instrumented copy that uses TryLock.
+func EnableHoldPoints() { holdPoints = true }
+
+// HoldPoint is a scheduling point taken while holding a lock that was just acquired.
+//
+//go:norace
+func HoldPoint() {
+	if !holdPoints {
+		return
+	}
+	s, t := Current()
+	if t == nil {
+		return
+	}
+	s.St.HoldPoints++
+	s.park(t, OpPlain, nil)
 }
 
 // RunEpoch identifies the current simulated run (0 outside a run).
